@@ -282,6 +282,10 @@ class Walker:
                     st.events.append(Event('divzero', name=self.canon(a), node=n, conds=tuple(st.conds),
                                            loops=tuple(st.loops), seq=self.seq))
                     return Rat.atom('(%s / 0)' % self.canon(a))
+                if isinstance(n.op, ast.Div) and not b.isconst():
+                    self.seq += 1
+                    st.events.append(Event('div', name=self.canon(b), value=b, node=n, conds=tuple(st.conds),
+                                           loops=tuple(st.loops), seq=self.seq))
                 return f(a, b)
             if isinstance(n.op, ast.Pow):
                 if b.isconst():
@@ -774,6 +778,10 @@ class Walker:
             opname = type(s.op).__name__
             if isinstance(cur, Rat) and isinstance(v, Rat) and type(s.op) in _BIN and \
                     not (isinstance(s.op, ast.Div) and v.n.iszero()):
+                if isinstance(s.op, ast.Div) and not v.isconst():
+                    self.seq += 1
+                    st.events.append(Event('div', name=self.canon(v), value=v, node=s, conds=tuple(st.conds),
+                                           loops=tuple(st.loops), seq=self.seq))
                 new = _BIN[type(s.op)](cur, v)
             elif isinstance(cur, Rat) and isinstance(v, Rat) and isinstance(s.op, ast.Pow) and \
                     v.isconst() and v.constval().denominator == 1 and 0 <= v.constval() <= 12:
